@@ -413,11 +413,13 @@ pub struct GenCfg {
     pub near_prob: f64,
     /// allow power-cone exponents within 1e-3 of 0 or 1
     pub extreme_alpha: bool,
+    /// make [P;A] full column rank with bounded conditioning (adds a positive diagonal to P unless A is tall and dense)
+    pub full_rank: bool,
 }
 
 impl GenCfg {
     pub fn small() -> Self {
-        GenCfg { nmax: 8, mmax: 20, allow_psd: true, allow_nonsym: true, allow_empty_cones: true, psd_max: 4, soc_max: 6, magnitude: 3.0, near_prob: 0.25, extreme_alpha: true }
+        GenCfg { nmax: 8, mmax: 20, allow_psd: true, allow_nonsym: true, allow_empty_cones: true, psd_max: 4, soc_max: 6, magnitude: 3.0, near_prob: 0.25, extreme_alpha: true, full_rank: false }
     }
 }
 
@@ -573,7 +575,12 @@ pub fn gen_feasible_with(t: &mut Tape, cfg: &GenCfg, n: usize, cones: Vec<ConeSp
         a[i] = a[j].clone();
     }
     let near = t.chance(cfg.near_prob);
-    let p = gen_p(t, n);
+    let mut p = gen_p(t, n);
+    if cfg.full_rank && !(dens == 1.0 && m >= 2 * n + 2) {
+        for i in 0..n {
+            p[i][i] += t.uniform(0.1, 1.0);
+        }
+    }
     let xs: Vec<f64> = (0..n).map(|_| t.nice(1.5)).collect();
     let mut s = vec![];
     let mut z = vec![];
